@@ -20,9 +20,14 @@ def gen_cfg(rng):
             n = rng.randrange(1, 12)
             addrs = rng.sample(range(0, 120), n)
             b['segments'] = [{'id': f'xseg{ids + i}_{b["id"]}', 'address': a, 'length': '10cm'} for i, a in enumerate(addrs)]
+    taken = {tuple(t['addr']) for t in cfg['trains']} | {tuple(a['addr']) for b in cfg['boards'] for kk in ('points_dcc', 'signals_dcc') for a in (b.get(kk) or [])}
     while len(cfg['trains']) < 2:
         k = len(cfg['trains'])
-        cfg['trains'].append({'id': f'xtrain{k}', 'addr': (0x3F - k, 0xF0 - k), 'steps': 28, 'calibration': None, 'peripherals': None})
+        ad = (0x3F - k, 0xF0 - k)
+        while ad in taken:                       # generated addresses are random: the fixed extra ones must not collide with them
+            ad = (ad[0], (ad[1] - 7) % 256 or 1)
+        taken.add(ad)
+        cfg['trains'].append({'id': f'xtrain{k}', 'addr': ad, 'steps': 28, 'calibration': None, 'peripherals': None})
     return cfg
 
 def gen_bm(rng, m, cfg):
